@@ -682,7 +682,7 @@ func (cl *cluster) enabled() []string {
 			if len(v.Backends) == 0 || cl.nResizes >= 2 {
 				continue
 			}
-			for _, k := range []string{"same", "shrink", "garbage", "empty", "wrongname"} {
+			for _, k := range []string{"same", "shrink", "garbage", "empty", "wrongname", "growfe"} {
 				out = append(out, "Resize:"+k+":0")
 			}
 			for _, m := range subsets(nonErr) {
